@@ -11,7 +11,7 @@ package http
 //@ modifies iterOf[self]
 
 //@ func convertScenarioToAmmo
-//@ props C13 C15
+//@ props C13 C15 C16
 //@ nilsafe
 //@ loop 0 invariant [earlier-steps-parsed] imp(calls(config.ParseShootName) > 0, result_of(config.ParseShootName, 3) == nil)
 //@ loop 0 invariant result != nil && result.Name == sc.Name && len(result.Requests) >= 0 && forall(k, 0, len(result.Requests), result.Requests[k].Templater != nil)
@@ -22,7 +22,7 @@ package http
 //@ ensures [bad-step-is-an-error] imp(calls(config.ParseShootName) > 0 && result_of(config.ParseShootName, 3) != nil, result1 != nil)
 
 //@ func convertConfigToRequest
-//@ props C13 C15
+//@ props C13 C15 C16
 //@ nilsafe
 //@ modifies iterOf
 //@ ensures [fields-as-configured] result.Method == req.Method && result.URI == req.URI && result.Name == req.Name && result.Tag == req.Tag && result.Body == req.Body && result.Headers == req.Headers && result.Preprocessor == req.Preprocessor && result.Postprocessors == req.Postprocessors
@@ -30,7 +30,7 @@ package http
 
 // Scenarios are listed weight/gcd times each, in the order of the description.
 //@ func decodeAmmo
-//@ props C13 C15
+//@ props C13 C15 C16
 //@ nilsafe
 //@ requires cfg != nil
 //@ loop 0 invariant reqRegistry != nil
